@@ -70,11 +70,25 @@ func (v c18Vec) String() string {
 }
 
 // renderTable renders the <table> element of a vector; every cell carries words (w<N>).
-func (v c18Vec) renderTable() string {
+func (v c18Vec) renderTable() string { return v.renderTableWith("w", "T") }
+
+// otherIndex derives a second vector (used as the table that precedes this one).
+func (v c18Vec) otherIndex() int {
+	d := c18Dims()
+	vals := []int{v.Editable, v.Role, v.DescRole, v.Datatable, v.Nested, v.Shape, v.Header, v.Cell, v.Summary, v.Object}
+	idx, mul := 0, 1
+	for i := range d {
+		idx += ((vals[i]*7 + 3 + i) % d[i]) * mul
+		mul *= d[i]
+	}
+	return idx
+}
+
+func (v c18Vec) renderTableWith(prefix, id string) string {
 	var b strings.Builder
 	w := 0
-	word := func() string { w++; return "w" + strconv.Itoa(w) + "x" }
-	b.WriteString(`<table id="T"`)
+	word := func() string { w++; return prefix + strconv.Itoa(w) + "x" }
+	b.WriteString(`<table id="` + id + `"`)
 	if r := c18Role[v.Role]; r != "" {
 		b.WriteString(` role="` + r + `"`)
 	}
@@ -181,6 +195,12 @@ func (v c18Vec) renderTable() string {
 // single-cell tables put nested table / object into the first cell as well
 func (v c18Vec) single() bool { s := c18Shapes[v.Shape]; return len(s) == 1 && s[0] == 1 }
 
+// c18Predecessor is a plain 3x4 table (12 cells, no header structure) whose first cell carries a scope
+// attribute and whose last cell holds an <object>: it runs through the cell-level rules of the
+// cascade, so anything a classifier instance remembered from it would show on the next table.
+const c18Predecessor = `<table id="T2"><tbody><tr><td scope="col">u1x</td><td>u2x</td><td>u3x</td><td>u4x</td></tr><tr><td>u5x</td><td>u6x</td><td>u7x</td><td>u8x</td></tr>` +
+	`<tr><td>u9x</td><td>u10x</td><td>u11x</td><td>u12x<object data="x.swf"></object></td></tr></tbody></table>`
+
 const c18Para = "<p>alpha beta gamma delta epsilon zeta eta theta iota kappa lambda mu nu xi omicron pi rho sigma tau upsilon phi chi psi omega " +
 	"alpha beta gamma delta epsilon zeta eta theta iota kappa lambda mu nu xi omicron pi rho sigma tau upsilon.</p>"
 
@@ -206,6 +226,10 @@ func (v c18Vec) page(placement int) string {
 		body = c18Para + tbl
 	case 3:
 		body = "<table><tr><td>" + tbl + "</td></tr></table>"
+	case 4: // an editable area (if any) above an enclosing layout table
+		body = v.wrapEditable("<table><tr><td>" + v.renderTable() + "</td></tr></table>")
+	case 5: // after another table that was classified by the same classifier instance
+		body = c18Predecessor + tbl
 	}
 	return "<html><head></head><body>" + body + "</body></html>"
 }
@@ -344,11 +368,10 @@ func checkC18(c *Case) (*Violation, caseInfo) {
 	var ex c18Extra
 	c.GetExtra(&ex)
 	v := c18Decode(ex.Index)
-	verdicts := map[string]string{}
 	var ref string
 	var deciding int
 	var holds []int
-	for placement := 0; placement < 4; placement++ {
+	for placement := 0; placement < 6; placement++ {
 		doc, err := html.Parse(strings.NewReader(v.page(placement)))
 		if err != nil {
 			info.Skip = "parse"
@@ -359,20 +382,52 @@ func checkC18(c *Case) (*Violation, caseInfo) {
 			info.Skip = "table-not-found"
 			return nil, info
 		}
+		// the reference is evaluated on the features of the table where it stands (only the
+		// editable-ancestor feature can differ between placements)
+		pref, pdec, pholds := c18Reference(c18Features(tbl))
 		if placement == 0 {
-			ref, deciding, holds = c18Reference(c18Features(tbl))
+			ref, deciding, holds = pref, pdec, pholds
+		} else if placement != 4 && pref != ref {
+			return violationf("C18 harness-reference-unstable", "reference verdict changes with placement %d for {%s}", placement, v), info
 		}
-		typ, reason := tableclass.NewClassifier(nil).Classify(tbl)
-		got := strings.ToLower(typ.String())
-		verdicts[fmt.Sprint(placement)] = got
-		if got != ref {
-			return violationf(fmt.Sprintf("C18 wrong-verdict rule=%d expected=%s", deciding, ref),
+		classifier := tableclass.NewClassifier(nil)
+		if placement == 5 {
+			// one classifier instance sees the preceding table first, as during a distillation
+			if t2 := findAll(doc, func(n *html.Node) bool { return isElem(n, "table") && attrVal(n, "id") == "T2" }); len(t2) > 0 {
+				classifier.Classify(t2[0])
+			}
+		}
+		typ, reason := classifier.Classify(tbl)
+		wantRef, wantDec := ref, deciding
+		if placement == 4 {
+			wantRef, wantDec = pref, pdec
+		}
+		if got := strings.ToLower(typ.String()); got != wantRef {
+			return violationf(fmt.Sprintf("C18 wrong-verdict rule=%d expected=%s placement=%d", wantDec, wantRef, placement),
 				"table {%s} at placement %d is classified %s (%v) but the documented cascade gives %s by rule %d (rules whose condition holds: %v)\n%s",
-				v, placement, got, reason, ref, deciding, holds, truncate(v.renderTable(), 800)), info
+				v, placement, got, reason, wantRef, wantDec, pholds, truncate(v.renderTable(), 800)), info
 		}
+		continue
 	}
 	// API level: the table follows a long retained paragraph
 	if ex.API {
+		// two tables in one document, distilled in one call: each must be kept iff its own verdict is data
+		v2 := "fixed 3x4 predecessor with a scope cell"
+		d2, _ := html.Parse(strings.NewReader("<html><body>" + c18Predecessor + "</body></html>"))
+		if t2 := findAll(d2, func(n *html.Node) bool { return isElem(n, "table") && attrVal(n, "id") == "T2" }); len(t2) > 0 {
+			ref2, _, _ := c18Reference(c18Features(t2[0]))
+			pair := "<html><head></head><body>" + c18Para + c18Predecessor + c18Para + v.wrapEditable(v.renderTable()) + c18Para + "</body></html>"
+			_, po := applyHTML(pair, OptSpec{})
+			if !po.Panicked && po.Err == nil && po.Res != nil {
+				outHTML := render(po.Res.Node)
+				has1 := strings.Contains(outHTML, "<table") && tableWithWord(po.Res.Node, "w1x")
+				has2 := strings.Contains(outHTML, "<table") && tableWithWord(po.Res.Node, "u1x")
+				info.Classes = append(info.Classes, "api-level-pair")
+				if has1 != (ref == "data") || has2 != (ref2 == "data") {
+					return violationf("C18 api-pair-disagrees", "two tables in one document: first {%s} verdict %s kept=%v; second {%s} verdict %s kept=%v", v2, ref2, has2, v, ref, has1), info
+				}
+			}
+		}
 		_, out := applyHTML(v.page(2), OptSpec{})
 		if !out.Panicked && out.Err == nil && out.Res != nil {
 			hasTable := countElems(out.Res.Node, "table") > 0
@@ -412,12 +467,14 @@ func TestC18(t *testing.T) {
 		if idx%nshards != shard {
 			continue
 		}
-		if !thorough && (idx/nshards)%16 != ((seed%16)+16)%16 {
+		// quick tier: a pseudo-random 1/16 of the vectors (a multiplicative hash of the index, so the
+		// slice is not correlated with the mixed-radix digits), rotated by the seed
+		if !thorough && int(mixIndex(idx)%16) != ((seed%16)+16)%16 {
 			continue
 		}
 		n++
 		c := &Case{Property: "C18", Kind: "vector"}
-		c.SetExtra(c18Extra{Index: idx, API: (idx/nshards)%97 == 0})
+		c.SetExtra(c18Extra{Index: idx, API: mixIndex(idx+7)%97 == 0})
 		c.HTML = "" // rendered from the index
 		if v := evalCase(c, checkC18); v != nil {
 			t.Fatalf("property C18 violated [%s]: %s", v.Signature, v.Detail)
@@ -427,4 +484,24 @@ func TestC18(t *testing.T) {
 	st.Exhaustive = thorough
 	st.mu.Unlock()
 	st.Note("enumeration", fmt.Sprintf("shard %d/%d visited %d of %d feature vectors, each at 4 placements", shard, nshards, n, total))
+}
+
+// tableWithWord reports whether a <table> of the output contains the word.
+func tableWithWord(root *html.Node, word string) bool {
+	for _, t := range findAll(root, func(n *html.Node) bool { return isElem(n, "table") }) {
+		for _, w := range strings.Fields(innerTextOf(t)) {
+			if w == word {
+				return true
+			}
+		}
+	}
+	return false
+}
+
+func mixIndex(i int) uint32 {
+	x := uint32(i)*2654435761 + 0x9e3779b9
+	x ^= x >> 15
+	x *= 2246822519
+	x ^= x >> 13
+	return x
 }
